@@ -27,7 +27,8 @@ structure Utxo where
   txid  : List Nat         -- bytes of the `txid` string
   vout  : Nat
   value : Nat
-  btime : Nat              -- `status.block_time`
+  btime : Nat              -- `status.block_time` (0 when the service omits it: unconfirmed outputs)
+  confirmed : Bool         -- `status.confirmed`; carried along, never consulted by the ordering or the selection
 deriving Repr, DecidableEq
 
 structure TxOut where
@@ -182,7 +183,8 @@ def natsLt : List Nat → List Nat → Bool
   | _ :: _, [] => false
   | a :: as, b :: bs => decide (a < b) || (a == b && natsLt as bs)
 
-/-- "`a` may stand before `b`": keys (block time, txid, vout), lexicographic -/
+/-- "`a` may stand before `b`": keys (block time, txid, vout), lexicographic.  The `confirmed` flag is not a key: the
+    code does not look at it, so unconfirmed outputs (block time 0) stand first, ordered among themselves by txid, vout. -/
 def keyLe (a b : Utxo) : Bool :=
   decide (a.btime < b.btime) ||
   (a.btime == b.btime && (natsLt a.txid b.txid || (a.txid == b.txid && decide (a.vout ≤ b.vout))))
